@@ -66,11 +66,12 @@ func c10Inits() []PointSpec {
 var c10Keys = []string{"a", "t1", "message", "n1", "n2"}
 
 type c10Event struct {
-	Src    string
-	Script *plrt.Script
-	Tree   []*rt.Node
-	HasRef bool
-	ReadKey string // key read back inside the event script
+	Src     string
+	Script  *plrt.Script // the event alone: the transition
+	Full    *plrt.Script // the event followed by a plain-expression read of its key (I7), run on a separate clone
+	Tree    []*rt.Node
+	HasRef  bool
+	ReadKey string // key read back inside the Full script
 }
 
 func c10Events() []*c10Event {
@@ -105,11 +106,15 @@ func c10Events() []*c10Event {
 	var out []*c10Event
 	for _, s := range srcs {
 		full, rkey := c10Full(s)
-		sc, err := drv.Load1("e.p", full)
+		sc, err := drv.Load1("e.p", s)
 		if err != nil {
 			panic("c10: event does not load: " + s + ": " + err.Error())
 		}
-		tree, err := parseToTree("e.p", full)
+		fsc, err := drv.Load1("e.p", full)
+		if err != nil {
+			panic("c10: event does not load: " + full + ": " + err.Error())
+		}
+		tree, err := parseToTree("e.p", s)
 		if err != nil {
 			panic(err)
 		}
@@ -118,7 +123,7 @@ func c10Events() []*c10Event {
 		if name == "grok" || name == "default_time" {
 			hasRef = true
 		}
-		out = append(out, &c10Event{Src: s, Script: sc, Tree: tree, HasRef: hasRef, ReadKey: rkey})
+		out = append(out, &c10Event{Src: s, Script: sc, Full: fsc, Tree: tree, HasRef: hasRef, ReadKey: rkey})
 	}
 	return out
 }
@@ -297,7 +302,30 @@ type c10Node struct {
 	rp    *ref.Point // nil = reference no longer tracks this state
 	depth int
 	path  []string
-	inScript string // I7 violation found while stepping into this state
+	from *input.Point // the state this one was reached from (never modified: every step works on a clone)
+	ev   *c10Event    // by this event
+}
+
+// c10I7: the event once more on a separate clone of the predecessor, followed in the same script by a
+// plain-expression read of its key: what the script reads right after the builtin is what the point holds.
+// (Done apart from the transition itself so that the extra read does not disturb the state explored.)
+func c10I7(n *c10Node) string {
+	if n.ev == nil || n.from == nil {
+		return ""
+	}
+	c := clonePoint(n.from)
+	res := drv.Run(n.ev.Full, c, nil)
+	if res.Panic != "" || res.Err != nil || len(res.Trace) == 0 {
+		return ""
+	}
+	want := "p(nil)"
+	if got, dt, err := c.Get(n.ev.ReadKey); err == nil {
+		want = "p(" + drv.CanonDT(got, dt) + ")"
+	}
+	if last := res.Trace[len(res.Trace)-1]; last != want {
+		return fmt.Sprintf("key %q read inside the script right after %s gives %s, the point then holds %s", n.ev.ReadKey, n.ev.Src, last, want)
+	}
+	return ""
 }
 
 func c10Step(n *c10Node, ev *c10Event) (*c10Node, string) {
@@ -306,17 +334,7 @@ func c10Step(n *c10Node, ev *c10Event) (*c10Node, string) {
 	if res.Panic != "" {
 		return nil, res.Panic
 	}
-	nn := &c10Node{pt: c, depth: n.depth + 1, path: append(append([]string{}, n.path...), ev.Src)}
-	// I7: what the script itself read right after the event is what the point holds now
-	if res.Err == nil && len(res.Trace) > 0 {
-		want := "p(nil)"
-		if got, dt, err := c.Get(ev.ReadKey); err == nil {
-			want = "p(" + drv.CanonDT(got, dt) + ")"
-		}
-		if last := res.Trace[len(res.Trace)-1]; last != want {
-			nn.inScript = fmt.Sprintf("key %q read inside the script right after %s gives %s, the point then holds %s", ev.ReadKey, ev.Src, last, want)
-		}
-	}
+	nn := &c10Node{pt: c, depth: n.depth + 1, path: append(append([]string{}, n.path...), ev.Src), from: n.pt, ev: ev}
 	if n.rp != nil && ev.HasRef {
 		w := ref.NewWorld()
 		ref.StdBuiltins(w)
@@ -365,10 +383,10 @@ func c10Run(w *run.Worker) {
 		sound = true
 		cs := canonState(n.pt)
 		w.Outcome(cs)
-		if n.inScript != "" {
+		if msg := c10I7(n); msg != "" {
 			sound = false
 			last := n.path[len(n.path)-1]
-			w.Violate("C10:I7-read-inside-the-script-differs-from-the-point:after-"+last[:strings.Index(last, "(")], fmt.Sprintf("%s\nhistory: %v\nstate: %s", n.inScript, n.path, cs), c10Case{Init: initIdx, Events: n.path})
+			w.Violate("C10:I7-read-inside-the-script-differs-from-the-point:after-"+last[:strings.Index(last, "(")], fmt.Sprintf("%s\nhistory: %v\nstate: %s", msg, n.path, cs), c10Case{Init: initIdx, Events: n.path})
 		}
 		if class, msg, key := c10Invariants(n.pt, probes); class != "" {
 			sound = false
@@ -482,8 +500,23 @@ func c10Replay(raw json.RawMessage) (bool, string) {
 	rp := inits[c.Init].model()
 	tracked := true
 	inScript := ""
-	for _, src0 := range c.Events {
-		src, rkey := c10Full(src0)
+	for ei, src := range c.Events {
+		if ei == len(c.Events)-1 {
+			// I7 for the last event, on a clone
+			full, rkey := c10Full(src)
+			if fsc, err := drv.Load1("e.p", full); err == nil {
+				c2 := clonePoint(pt)
+				if r2 := drv.Run(fsc, c2, nil); r2.Err == nil && r2.Panic == "" && len(r2.Trace) > 0 {
+					want := "p(nil)"
+					if got, dt, err := c2.Get(rkey); err == nil {
+						want = "p(" + drv.CanonDT(got, dt) + ")"
+					}
+					if last := r2.Trace[len(r2.Trace)-1]; last != want {
+						inScript = fmt.Sprintf("after %s the script read %s, the point holds %s", src, last, want)
+					}
+				}
+			}
+		}
 		sc, err := drv.Load1("e.p", src)
 		if err != nil {
 			return false, err.Error()
@@ -491,15 +524,6 @@ func c10Replay(raw json.RawMessage) (bool, string) {
 		res := drv.Run(sc, pt, nil)
 		if res.Panic != "" {
 			return true, res.Panic
-		}
-		if res.Err == nil && len(res.Trace) > 0 {
-			want := "p(nil)"
-			if got, dt, err := pt.Get(rkey); err == nil {
-				want = "p(" + drv.CanonDT(got, dt) + ")"
-			}
-			if last := res.Trace[len(res.Trace)-1]; last != want {
-				inScript = fmt.Sprintf("after %s the script read %s, the point holds %s", src0, last, want)
-			}
 		}
 		tree, _ := parseToTree("e.p", src)
 		w := ref.NewWorld()
